@@ -87,7 +87,7 @@ Proof.
         match st with
         | Some (_, pp) =>
           (match oshot x2 with S _ => with_shot (oshot x2) (Some pp) (ocstat x2) x2 | O => x2 end, Val (RInt pp), add)
-        | None => (x2, Exc (esrch_exn K (opid x2)), add)
+        | None => (x2, Exc (stat_exn K (opid x2)), add)
         end
       | Exc e => (x1, Exc e, add)
       | OutOfModel => (x1, OutOfModel, add)
@@ -99,7 +99,7 @@ Proof.
         match st with
         | Some (_, pp) =>
           (match oshot x2 with S _ => with_shot (oshot x2) (Some pp) (ocstat x2) x2 | O => x2 end, Val (RInt pp), add)
-        | None => (x2, Exc (esrch_exn K (opid x2)), add)
+        | None => (x2, Exc (stat_exn K (opid x2)), add)
         end
       | Exc e => (x1, Exc e, add)
       | OutOfModel => (x1, OutOfModel, add)
